@@ -2,6 +2,10 @@ package main
 
 import (
 	"fmt"
+	"sort"
+	"strings"
+
+	"github.com/zclconf/go-cty/cty"
 
 	"github.com/hashicorp/hcl-lang/reference"
 	"github.com/hashicorp/hcl-lang/schema"
@@ -136,4 +140,64 @@ func targetableOracle(run *Run, sc *Scenario, ts reference.Targets, loc map[stri
 			}
 		}
 	})
+}
+
+// valueOutline: the addresses a known value denotes below addr (object attributes, list indices, map keys)
+func valueOutline(addr string, v cty.Value, out *[]string) {
+	if v.IsNull() || !v.IsKnown() {
+		return
+	}
+	t := v.Type()
+	switch {
+	case t.IsObjectType():
+		for name := range t.AttributeTypes() {
+			a := addr + "." + name
+			*out = append(*out, a)
+			valueOutline(a, v.GetAttr(name), out)
+		}
+	case t.IsListType() || t.IsTupleType():
+		i := 0
+		for it := v.ElementIterator(); it.Next(); i++ {
+			_, ev := it.Element()
+			a := fmt.Sprintf("%s[%d]", addr, i)
+			*out = append(*out, a)
+			valueOutline(a, ev, out)
+		}
+	case t.IsMapType():
+		for it := v.ElementIterator(); it.Next(); {
+			k, ev := it.Element()
+			a := fmt.Sprintf("%s[%q]", addr, k.AsString())
+			*out = append(*out, a)
+			valueOutline(a, ev, out)
+		}
+	}
+}
+
+// cfgTargetableOracle: the declarations nested in the target of a "cfg" block are exactly the
+// elements of the value it stands for, each extending its parent by the element's real key
+func cfgTargetableOracle(run *Run, ts reference.Targets, loc map[string]interface{}) {
+	var want []string
+	valueOutline("cfgdata.net.out", cfgValue, &want)
+	sort.Strings(want)
+	q := Query{Name: "CollectReferenceTargets"}
+	for _, t := range ts {
+		if t.Addr.String() != "cfgdata.net.out" {
+			continue
+		}
+		var got []string
+		var walk func(ts reference.Targets)
+		walk = func(ts reference.Targets) {
+			for _, n := range ts {
+				got = append(got, n.Addr.String())
+				walk(n.NestedTargets)
+			}
+		}
+		walk(t.NestedTargets)
+		sort.Strings(got)
+		run.Res.Hypotheses["value_targetables_checked"]++
+		if strings.Join(got, " ") != strings.Join(want, " ") {
+			run.Violate(Violation{Key: "C09/nested-targets-not-the-elements-of-the-value", Rule: "nested targets extend their parent's address by exactly one step that denotes the element's real position or key",
+				Func: "CollectReferenceTargets", Detail: firstDiff(strings.Join(want, " "), strings.Join(got, " ")), Replay: locWith(loc, q)})
+		}
+	}
 }
